@@ -28,7 +28,7 @@ def configs(tier):
     for n in ns:
         out.append(dict(name='lo_N%d_percentfee' % n, n=n, fee='percent', nan=[], weight=n * n,
                         bound='N=%d assets, all of weights/prices/equity/buffer/fee rates symbolic reals' % n,
-                        twins=['positive_quantity', 'rejected', 'fee_matters']))
+                        twins=['positive_quantity', 'rejected'] + (['fee_matters'] if n <= 2 else [])))
         out.append(dict(name='lo_N%d_zerofee' % n, n=n, fee='zero', nan=[], weight=n,
                         bound='N=%d assets, ZeroFeeModel' % n, twins=['positive_quantity']))
         for k in range(n):
